@@ -52,11 +52,13 @@ def obstacle(draw, oid, net, t0=None, allow_none=True, pred_shape=True):
     if role == "dynamic" and (not allow_none or draw(st.integers(0, 3)) > 0):
         n = draw(st.integers(1, 4))
         states = []
+        prev = p
         for k in range(n):
-            sp = draw(c06.point_spec())
+            # a standing vehicle keeps its position (exactly) while it may still turn
+            pos = prev if draw(st.integers(0, 3)) == 0 else c06.point_from_spec(net, draw(c06.point_spec()))
+            prev = pos
             states.append({"cls": "KSState", "t": t0 + 1 + k, "a": {
-                "position": c06.point_from_spec(net, sp), "steering_angle": 0.0, "velocity": 1.0,
-                "orientation": draw(angle())}})
+                "position": list(pos), "steering_angle": 0.0, "velocity": 1.0, "orientation": draw(angle())}})
         ob["pred"] = {"k": "traj", "traj": {"t0": t0 + 1, "states": states}}
         if pred_shape and draw(st.integers(0, 2)) == 0:
             # a prediction may carry its own shape (e.g. inflated by a safety margin)
